@@ -249,3 +249,134 @@ Proof.
       * split; [intros H; injection H as <-; auto 6|intros (-> & _); reflexivity].
       * split; [discriminate|intros (_ & _ & [H|(_ & _ & H)]); discriminate H].
 Qed.
+
+(* ---- closed formulas for the calls that add children, assign and delete items ---- *)
+(* _prepare_new_relative alone (no sibling is involved): attached / document root / own ancestor / tag() without a
+   tag context *)
+Definition first_refusal (w : world) (ctx : nid) (src : nsrc) : option exn :=
+  match src with
+  | SNode n => if lone w n then (if is_ancestor_or_self w n ctx then Some EInvalidOperation else None)
+               else Some EInvalidOperation
+  | SStr _ _ => None
+  | STag _ _ => match tagdef_ctx w ctx with Some _ => None | None => Some EInvalidOperation end
+  end.
+Definition replace_refusal (w : world) (x : nid) (src : nsrc) : option exn :=
+  match w_parent w x with None => Some EInvalidOperation | Some _ => sibling_refusal w x src end.
+Definition detach_refusal (w : world) (x : nid) (r : bool) : option exn :=
+  match w_kind w x with
+  | Some NTag => if is_doc_root w x then Some EInvalidOperation
+                 else match w_parent w x with
+                      | None => if r then Some EInvalidOperation else None
+                      | Some _ => None
+                      end
+  | _ => None
+  end.
+Definition append_refusal (F : filt) (w : world) (p : nid) (src : nsrc) : option exn :=
+  if kind_is w p (nkind_eqb NTag)
+  then match rev (vis_children F w p) with l :: _ => sibling_refusal w l src | [] => first_refusal w p src end
+  else None.
+Definition insert_refusal (F : filt) (w : world) (p : nid) (i : Z) (src : nsrc) : option exn :=
+  if kind_is w p (nkind_eqb NTag)
+  then if (i <? 0)%Z then Some EValueError
+       else if Nat.ltb (length (vis_children F w p)) (Z.to_nat i) then Some EIndexError
+            else match Z.to_nat i with
+                 | O => match vis_children F w p with y :: _ => sibling_refusal w y src | [] => first_refusal w p src end
+                 | S n' => match nth_vis F w p n' with Some y => sibling_refusal w y src | None => None end
+                 end
+  else None.
+Definition setitem_refusal (F : filt) (w : world) (p : nid) (i : Z) (src : nsrc) : option exn :=
+  if kind_is w p (nkind_eqb NTag)
+  then let cc := length (vis_children F w p) in
+       if (Nat.eqb cc 0 && (i =? 0)%Z)%bool
+       then match src with
+            | SNode n => if lone w n then (if is_ancestor_or_self w n p then Some EInvalidOperation else None)
+                         else Some EInvalidOperation
+            | _ => None
+            end
+       else if ((i <? 0) || (Z.of_nat cc <=? i))%Z%bool then Some EIndexError
+            else match resolve_index F w p i with Some y => replace_refusal w y src | None => None end
+  else None.
+Definition delitem_refusal (F : filt) (w : world) (p : nid) (i : Z) : option exn :=
+  if kind_is w p (nkind_eqb NTag)
+  then match resolve_index F w p i with Some y => detach_refusal w y false | None => Some EIndexError end
+  else None.
+
+Lemma rejected_inj e e' : Rejected e = Rejected e' <-> Some e = Some e'.
+Proof. split; intros H; injection H as <-; reflexivity. Qed.
+Lemma not_rejected_none r e : is_rejected r = false -> (r = Rejected e <-> @None exn = Some e).
+Proof. intros H. split; [intros ->; discriminate|discriminate]. Qed.
+
+Lemma child_call_refused w ctx src (k : nid -> prog) : (forall n, no_reject (k n)) ->
+  forall e, snd (run_a (prepare ctx None src k) w) = Rejected e <-> first_refusal w ctx src = Some e.
+Proof.
+  intros Hk e. destruct src as [n|fresh s|fresh name]; cbn [prepare first_refusal run_a validate_opt].
+  - destruct (lone w n); cbn [run_a snd]; [|apply rejected_inj].
+    unfold no_cycle. cbn [run_a]. destruct (is_ancestor_or_self w n ctx); cbn [run_a snd]; [apply rejected_inj|].
+    apply not_rejected_none. destruct (w_kind w n); cbn [run_a snd]; [|reflexivity]. apply no_reject_run_a, Hk.
+  - apply not_rejected_none. apply (no_reject_run_a (Upd (UNewText fresh s) (k fresh))). cbn. apply Hk.
+  - destruct (tagdef_ctx w ctx) as [[c ns]|]; cbn [run_a snd]; [|apply rejected_inj].
+    apply not_rejected_none. apply (no_reject_run_a (Upd (UNewTag c fresh ns name) (k fresh))). cbn. apply Hk.
+Qed.
+Lemma replace_run w x src e : snd (run_a (replace_with x src) w) = Rejected e <-> replace_refusal w x src = Some e.
+Proof.
+  pose proof (replace_refused_iff fall w x src e) as H. unfold astep in H. cbn [script] in H. rewrite H.
+  unfold replace_refusal. destruct (w_parent w x); [reflexivity|]. split; [intros ->; reflexivity|intros E; injection E as <-; reflexivity].
+Qed.
+Lemma detach_run w x r e : snd (run_a (detach x r) w) = Rejected e <-> detach_refusal w x r = Some e.
+Proof.
+  pose proof (detach_refused_iff fall w x r e) as H. unfold astep in H. cbn [script] in H. rewrite H.
+  unfold detach_refusal. destruct (w_kind w x) as [[]|]; try (split; [intros (_ & E & _); discriminate|discriminate]).
+  destruct (is_doc_root w x).
+  - split; [intros (-> & _); reflexivity|intros E; injection E as <-; auto].
+  - destruct (w_parent w x); [split; [intros (_ & _ & [E|(_ & E & _)]); discriminate|discriminate]|].
+    destruct r.
+    + split; [intros (-> & _); reflexivity|intros E; injection E as <-; auto 6].
+    + split; [intros (_ & _ & [E|(_ & _ & E)]); discriminate|discriminate].
+Qed.
+
+Theorem append_refused_iff F w p src e :
+  snd (astep F w (OAppend p [src])) = Rejected e <-> append_refusal F w p src = Some e.
+Proof.
+  unfold astep. cbn [script]. unfold append_children, on_tag, append_refusal. cbn [run_a].
+  destruct (kind_is w p (nkind_eqb NTag)); cbn [run_a snd]; [|split; discriminate].
+  destruct (rev (vis_children F w p)) as [|l ?].
+  - apply child_call_refused. intros n. apply add_first_child_nr. reflexivity.
+  - cbn [add_following]. apply sibling_call_refused. intros n. reflexivity.
+Qed.
+Theorem insert_refused_iff F w p i src e :
+  snd (astep F w (OInsert p i [src])) = Rejected e <-> insert_refusal F w p i src = Some e.
+Proof.
+  unfold astep. cbn [script]. unfold insert_children, on_tag, insert_refusal. cbn [run_a].
+  destruct (kind_is w p (nkind_eqb NTag)); cbn [run_a snd]; [|split; discriminate].
+  destruct (i <? 0)%Z; cbn [run_a snd]; [apply rejected_inj|].
+  destruct (Nat.ltb (length (vis_children F w p)) (Z.to_nat i)); cbn [run_a snd]; [apply rejected_inj|].
+  destruct (Z.to_nat i) as [|n'].
+  - destruct (vis_children F w p) as [|y ?].
+    + apply child_call_refused. intros m. apply add_first_child_nr. reflexivity.
+    + apply sibling_call_refused. intros m. apply add_preceding_one_nr. reflexivity.
+  - destruct (nth_vis F w p n'); cbn [run_a snd]; [|split; discriminate].
+    apply sibling_call_refused. intros m. reflexivity.
+Qed.
+Theorem prepend_refused_iff F w p src e :
+  snd (astep F w (OPrepend p [src])) = Rejected e <-> insert_refusal F w p 0%Z src = Some e.
+Proof. apply (insert_refused_iff F w p 0%Z src e). Qed.
+Theorem setitem_refused_iff F w p i src e :
+  snd (astep F w (OSetItem p i src)) = Rejected e <-> setitem_refusal F w p i src = Some e.
+Proof.
+  unfold astep. cbn [script]. unfold set_item, on_tag, setitem_refusal. cbn [run_a].
+  destruct (kind_is w p (nkind_eqb NTag)); cbn [run_a snd]; [|split; discriminate].
+  destruct (Nat.eqb (length (vis_children F w p)) 0 && (i =? 0)%Z)%bool.
+  - destruct src as [n|? ?|? ?]; cbn [run_a snd]; try (split; discriminate).
+    destruct (lone w n); cbn [run_a snd]; [|apply rejected_inj]. unfold no_cycle. cbn [run_a].
+    destruct (is_ancestor_or_self w n p); cbn [run_a snd]; [apply rejected_inj|].
+    apply not_rejected_none. apply (no_reject_run_a (add_first_child p n (Ret ROk))). apply add_first_child_nr. reflexivity.
+  - destruct ((i <? 0) || (Z.of_nat (length (vis_children F w p)) <=? i))%Z%bool; cbn [run_a snd]; [apply rejected_inj|].
+    destruct (resolve_index F w p i); cbn [run_a snd]; [apply replace_run|split; discriminate].
+Qed.
+Theorem delitem_refused_iff F w p i e :
+  snd (astep F w (ODelItem p i)) = Rejected e <-> delitem_refusal F w p i = Some e.
+Proof.
+  unfold astep. cbn [script]. unfold del_item, on_tag, delitem_refusal. cbn [run_a].
+  destruct (kind_is w p (nkind_eqb NTag)); cbn [run_a snd]; [|split; discriminate].
+  destruct (resolve_index F w p i); cbn [run_a snd]; [apply detach_run|apply rejected_inj].
+Qed.
